@@ -81,11 +81,30 @@ def reward_guard():
     raise X.ExtractError('sparse model: reward copies guarded inconsistently')
 
 
+def sparse_generic_partial():
+    """Does the element-wise (non-Eigen experience) branch of SparseMaximumLikelihoodModel::sync(s,a) leave unvisited
+    cells untouched (True, as first read) or clear the row before writing (False)?"""
+    src = X.strip_comments(X.read(SPARSE))
+    body, ln = func_body(src, r'SparseMaximumLikelihoodModel<E>::sync\s*\(\s*const\s+size_t\s+s\s*,\s*const\s+size_t\s+a\s*\)\s*\{', 'SparseMaximumLikelihoodModel::sync(s,a)')
+    m = X.find1(r'if\s+constexpr\s*\(\s*IsExperienceEigen<E>\s*\)\s*\{', body, 'if constexpr (IsExperienceEigen<E>) in sparse sync(s,a)')
+    eig, start = block_after(body, m.end() - 1)
+    rest = body[start + len(eig):]
+    m2 = X.find1(r'^\s*else\s*\{', rest, 'else branch of the Eigen test in sparse sync(s,a)')
+    els, _ = block_after(rest, m2.end() - 1)
+    loop = X.find1(r'for\s*\(', els, 'loop in the element-wise branch')
+    guarded = re.search(r'if\s*\(\s*visits\s*>\s*0\s*\)', els)
+    clears = re.search(r'row\s*\(\s*s\s*\)\s*(\.setZero\s*\(\s*\)|\*=\s*0(\.0)?\s*;)', els[:loop.start()])
+    if clears or not guarded:
+        return False, ln
+    return True, ln
+
+
 def gen_c07():
     d, dl = n1_clear(DENSE, 'MaximumLikelihoodModel')
     s, sl = n1_clear(SPARSE, 'SparseMaximumLikelihoodModel')
     j, jl = ctor_junk()
     g = reward_guard()
+    sg, sgl = sparse_generic_partial()
     b = lambda x: 'true' if x else 'false'
     body = ['/- GENERATED by tools/extract_c07.py from the library source — do not edit. -/', 'namespace AITB.Gen.C07', '',
             f'/-- {DENSE}:{dl} — `visitSum == 1` branch of sync(s,a,s1) clears the whole row -/',
@@ -96,6 +115,8 @@ def gen_c07():
             f'def denseCtorJunk : Bool := {b(j)}',
             f'/-- {SPARSE} — reward copied only under checkDifferentSmall -/',
             f'def sparseRewardGuard : Bool := {b(g)}',
+            f'/-- {SPARSE}:{sgl} — element-wise branch of sync(s,a) writes only the visited cells -/',
+            f'def sparseGenericPartial : Bool := {b(sg)}',
             '', 'end AITB.Gen.C07', '']
     X.write_if_changed('C07', '\n'.join(body))
 
